@@ -90,6 +90,17 @@ CHECKS = {
         ref="DESIGN.md 6 (C16), 3.10",
         technique="TLC model checking of the QMetaData heap model + replayed histories + TLC trace validation of all "
                   "lookups and of executor AST/dump/hash against a QMetaData-free shadow chain"),
+    "C20": dict(
+        text="spec/GenHash.tla derives base queries and EVERY single edit of each (operator, name, parameter name, "
+             "constant value, constant type int/bool/str/float, argument order, tuple/list, nesting). Each case is built "
+             "along 9 routes (parsed text, re-formatted text, deep copy with other positions and executor / query-"
+             "metadata attributes on every node, nodes constructed directly, another process with another "
+             "PYTHONHASHSEED, the fluent API with str / ast / callable lambdas, the fluent API with QMetaData between "
+             "the steps) and the real (term(ast), calc_ast_hash(ast)) table is judged by TLC (TraceHash.tla): "
+             "Stable (one hash per structure) and Sensitive (one structure per hash) over the whole table.",
+        ref="DESIGN.md 6 (C20)",
+        technique="TLC-generated base queries and single edits; real hashes recorded along 9 construction routes; TLC "
+                  "trace validation of the bijection structure <-> hash"),
 }
 
 ORDER = ["C%02d" % i for i in range(1, 21)]
